@@ -41,7 +41,7 @@ def user_names(y):
     return sorted(names)
 
 
-def run_scope(progs, report, wd, what="scope"):
+def run_scope(progs, report, wd, what="scope", protocol=False):
     """progs: [{id, yaml, text, family, mode}] -> files violations into report; returns per-program findings."""
     entries = []
     kept = []
@@ -51,7 +51,7 @@ def run_scope(progs, report, wd, what="scope"):
         except SyntaxError as ex:
             report.violation(dict(kind="scope", clause="NotPython: " + str(ex), spec=p["yaml"], text=p["text"], family=p["family"], mode=p.get("mode")))
             continue
-        entries.append({"code": code, "user": user_names(p["yaml"])})
+        entries.append({"code": code, "user": user_names(p["yaml"]), "protocol": protocol})
         kept.append(p)
     res = tlc.run_sharded("Scope", SCOPE_CFG, wd, entries, "SCOPE_BATCH", lambda es: {"progs": es}, tag=what, timeout=1200, shards=2 if len(entries) > 20 else 1)
     found = [set() for _ in kept]
@@ -66,7 +66,9 @@ def run_scope(progs, report, wd, what="scope"):
         report.cov["programs"] += 1
         report.cov["traces_validated_against_impl"] += 1
         for kind, name in sorted(fs):
-            clause = ("Err: unbound name " + name) if kind == "unbound" else ("LoopVarsScoped: " + name + " read outside its loop")
+            clause = ("Err: unbound name " + name) if kind == "unbound" else ("Protocol: " + name) if kind == "protocol" else ("LoopVarsScoped: " + name + " read outside its loop")
+            if kind == "protocol" and not protocol:
+                continue
             report.violation(dict(kind="scope", clause=clause, spec=p["yaml"], text=p["text"], family=p["family"], mode=p.get("mode"),
                                   site=execpipe.site_of("Err: unbound name " + name, p["text"])))
     return found
